@@ -298,6 +298,12 @@ def boundary_texts(tier):
         out.append(("edge-lexeme-%d-let" % k, "let x = %s;\nprint(1);" % lex))
         out.append(("edge-lexeme-%d-arg" % k, "print(%s, 2);" % lex))
         out.append(("edge-lexeme-%d-eof" % k, "print(1);\n%s" % lex))
+    # a catch variable named like its class filter: the class is looked up before the variable exists
+    out.append(("catch-var-named-like-undeclared-class", "try { raise Error(\"x\"); } catch Foo: Foo { }\nprint(1);"))
+    out.append(("catch-var-named-like-class", "class Foo : Error {}\ntry { raise Foo(\"x\"); } catch Foo: Foo { print(Foo.message); }"))
+    out.append(("catch-var-named-like-class-in-fn", "fn f() { try { raise Error(\"x\"); } catch Error: Error { print(Error.message); } }\nf();"))
+    out.append(("for-var-named-like-iterable", "fn f() { let x = [1, 2]; for x in (|| x)() { print(x); } }\nf();"))
+    out.append(("let-named-like-its-initializer", "let a = 1;\nfn f() { let a = a; }"))
     out.append(("lambda-continue", "for i in [1] { let f = || { continue; }; }"))
     out.append(("lambda-break", "while true { let f = || { break; }; break; }"))
     out.append(("nest-64", "print(" + "(" * 60 + "1" + ")" * 60 + ");"))
